@@ -23,6 +23,19 @@ pub enum Out<R> {
     Panic(String),
 }
 
+impl<R> Out<R> {
+    /// Forgets the value of a returned call (used to hand a non-Ok outcome to `settle`).
+    pub fn map_unit(self) -> Out<()> {
+        match self {
+            Out::Ok(_) => Out::Ok(()),
+            Out::Fault(c) => Out::Fault(c),
+            Out::Ceiling(n) => Out::Ceiling(n),
+            Out::Diverge(n) => Out::Diverge(n),
+            Out::Panic(p) => Out::Panic(p),
+        }
+    }
+}
+
 /// k-minimum-values sketch for counting distinct 64-bit signatures across worker processes.
 #[derive(Clone, Debug, Default)]
 pub struct Kmv {
